@@ -13,7 +13,8 @@ spec/Shadow.tla (three parts, one module):
 Binding B1, three-way.  Every demanded cell / kept behaviour is executed (i) by CPython with cython.py + Cython/Shadow.py of
 the snapshot on the *same* .py module and (ii) on the compiled module; both must equal S.  P (Python integer / Fraction
 oracle, lib_puremode.Sem) must equal S everywhere (else spec drift) and alone decides 64-bit wide cells and wide programs
-(TLC integers are 32-bit).  The real Shadow functions must also equal the spec's transcription of them.
+(TLC integers are 32-bit).  An interpreted result that deviates from S otherwise than the spec's transcription of Shadow.py predicts is
+reported with the model flags cleared (never matched by the known finding for the modelled deviation).
 """
 import collections
 import concurrent.futures
@@ -436,17 +437,22 @@ def run(tier, seed):
             if i in iobs:
                 oi = iobs[i]
                 n_i += 1
-                if extra and "shadow_model" in extra:
-                    shm = extra["shadow_model"]
-                    got = lp.dec_obs(oi)
-                    ok_model = (got == shm) if not (isinstance(shm, tuple) and shm[0] == "converted") else \
-                        (isinstance(got, tuple) and got[0] == {"list": "l", "tuple": "t", "dict": "other"}[shm[1]])
-                    if not ok_model:
-                        rep.spec_drift("Shadow.py does not behave like its transcription in the spec",
-                                       {"call": c, "model": shm, "real": oi})
+                d2 = dict(desc, side="interp")
                 if not same(oi, exp_i):
-                    rep.disagree(dict(desc, side="interp"), lp.obs_class(oi), {"module": name, "call": c, "want": exp_i, "got": oi,
-                                                                               "expected_from": srcname, "case": extra})
+                    if extra and "shadow_model" in extra:
+                        # the spec's transcription of Shadow.py predicts a value for this cell: a deviation that is not the
+                        # modelled one is a different defect (never covered by the known finding for the modelled one)
+                        shm = extra["shadow_model"]
+                        got = lp.dec_obs(oi)
+                        as_modelled = (got == shm) if not (isinstance(shm, tuple) and shm[0] == "converted") else \
+                            (isinstance(got, tuple) and got[0] == {"list": "l", "tuple": "t", "dict": "other"}[shm[1]])
+                        if not as_modelled:
+                            d2 = dict(d2, model_flags="", differs_from_transcription=True)
+                            stats["shadow_differs_from_transcription"] += 1
+                    rep.disagree(d2, lp.obs_class(oi), {"module": name, "call": c, "want": exp_i, "got": oi,
+                                                        "expected_from": srcname, "case": extra})
+                elif extra and "shadow_model" in extra and extra["shadow_model"] != exp_i:
+                    stats["modelled_shadow_deviation_not_observed"] += 1      # the transcription is stale (e.g. Shadow.py was fixed)
         k = rng.randrange(len(bt.calls))
         samples.append({"module": name, "call": bt.calls[k], "expect": bt.meta[k][1], "compiled": cobs[k], "interpreted": iobs.get(k, "not run"),
                         "from": bt.meta[k][3]})
